@@ -182,7 +182,7 @@ class Ctx:
         if deque:
             jopts.append("-Dtlc2.tool.queue.IStateQueue=StateDeque")
         cmd = ["java"] + jopts + ["-cp", JARS, "tlc2.TLC", "-config", cfg, "-workers", str(workers),
-                                   "-metadir", meta, "-noGenerateSpecTE"]
+                                   "-metadir", meta, "-noGenerateSpecTE", "-maxSetSize", "4000000"]
         if simulate:
             cmd += ["-simulate", simulate]
             cmd += ["-seed", str(seed if seed is not None else self.seed)]
